@@ -14,4 +14,4 @@ def run(ctx):
                          nontrivial=lambda c: sum(1 for x in c["b"] + c["n"] if x) > 2,
                          assumptions=["HCP: the floating normals / directions are not compared with the integer indices (that needs the c/a ratio); unit length, "
                                       "orthogonality, orientation tensors and Schmid factors (26 Miller-Bravais loading directions) are",
-                                      "floating-point obligations (unit vectors, tensors, Schmid range) are flags computed by the harness at 1e-12"])
+                                      "floating-point obligations (unit vectors, tensors, Schmid range and, for the cubic lattices, Schmid values (d.m)(d.n)) are flags computed by the harness at 1e-12"])
